@@ -1,7 +1,7 @@
 (* Properties/C09.v — pruning preserves the distribution, yields a normal form, and is idempotent. *)
 From Coq Require Import List Arith ZArith Ring Bool QArith Qcanon.
 From DV Require Import Model.Core Model.Leaves Model.QcInst Model.Prune Model.PruneRun
-  Proofs.CoreFacts Proofs.PruneFacts Proofs.PruneNF Proofs.PruneExamples.
+  Proofs.CoreFacts Proofs.PruneFacts Proofs.PruneNF Proofs.PruneValid Proofs.PruneExamples.
 Import ListNotations.
 Local Open Scope nat_scope.
 
@@ -54,6 +54,20 @@ Section C09.
       wf T leaf t -> Forall (shaped T leaf) t -> Forall (prod_nonempty T leaf) t ->
       pst (fst (pst t)) = (fst (pst t), seq 0 (length (fst (pst t)))).
   Proof. exact (prune_idempotent T t0 tadd tmul leaf). Qed.
+
+  (* the pruned table is a VALID circuit (children first, sums smooth, products decomposable, leaves as
+     they were) whenever the input is, every old node is mapped to a node with the same scope, and the root
+     keeps its scope — for every valid DAG *)
+  Variable dom : nat -> list Z.
+  Theorem C09_output_valid : forall t : table T leaf, valid T t0 tadd dom leaf leaf_val t ->
+      valid T t0 tadd dom leaf leaf_val (fst (pst t)) /\
+      length (snd (pst t)) = length t /\
+      (forall i, i < length t -> nth i (snd (pst t)) 0 < length (fst (pst t)) /\
+                 seteq (scope_of T leaf (fst (pst t)) (nth i (snd (pst t)) 0)) (scope_of T leaf t i)).
+  Proof.
+    intros t Hv. destruct (prune_valid T t0 tadd tmul dom leaf leaf_val t Hv) as [H1 H2 H3 H4].
+    split; [exact H1|]. split; [exact H2|]. intros i Hi. split; [now apply H3 | now apply H4].
+  Qed.
 End C09.
 
 (* the pinned defect (a sum left with one distinct child was kept) and the repaired behaviour on the same input *)
@@ -72,3 +86,4 @@ Print Assumptions C09_nf_example.
 Print Assumptions C09_normal_form.
 Print Assumptions C09_nf_fixpoint.
 Print Assumptions C09_idempotent.
+Print Assumptions C09_output_valid.
